@@ -63,12 +63,20 @@ def rnd_seg(rng):
     elif r < 0.5:   # collinear (straight) with controls at / near the thirds
         a = (rng.uniform(-10, 10), rng.uniform(-10, 10))
         b = (rng.uniform(-10, 10), rng.uniform(-10, 10))
-        if rng.random() < 0.5:
+        rr = rng.random()
+        if rr < 0.35:
             ts = [k / (n - 1.0) for k in range(n)]
-        else:
+        elif rr < 0.65:
             ts = [0.0] + sorted(rng.uniform(-0.3, 1.3) for _ in range(n - 2)) + [1.0]
+        else:
+            # EXACTLY collinear (dyadic data: every cross product is exactly 0), controls unevenly spaced, overshooting the end points,
+            # doubling back, or with coinciding end points
+            a = (rng.randint(-20, 20) / 4.0, rng.randint(-20, 20) / 4.0)
+            d = (float(rng.randint(-6, 6)), float(rng.randint(-6, 6)))
+            b = (a[0] + d[0], a[1] + d[1])
+            ts = [0.0] + [rng.randint(-8, 16) / 8.0 for _ in range(n - 2)] + [rng.choice([1.0, 1.0, 1.0, 0.0])]
         v = [c for t in ts for c in (a[0] + t * (b[0] - a[0]), a[1] + t * (b[1] - a[1]))]
-        st = 'straight'
+        st = 'straight' if rr < 0.65 else 'straight-exact'
     elif r < 0.6 and kind == 'C':   # loop / cusp
         v = [0.0, 0.0, 10.0, rng.uniform(2, 12), rng.uniform(-2, 2), 10.0, 10.0, 0.0]
         st = 'loop-cusp'
@@ -128,13 +136,23 @@ def _collinear(kind, vals):
     return all(abs((p[0] - a[0]) * dy - (p[1] - a[1]) * dx) / ln <= 1e-9 * ext for p in pts)
 
 
+def _affinely_parametrised(kind, vals):
+    """the curve is a degree-raised line up to rounding: every second difference of the control points is of rounding size"""
+    if kind == 'L':
+        return False
+    pts = pts_of(vals)
+    ext = max(1e-300, max(abs(v) for v in vals))
+    return all(math.hypot(a[0] - 2 * b[0] + c[0], a[1] - 2 * b[1] + c[1]) <= 1e-9 * ext for a, b, c in zip(pts, pts[1:], pts[2:]))
+
+
 def nearest_straight(case, outs, verdict):
-    """root cause: a quadratic/cubic whose control polygon is collinear (a straight segment written as a curve): the critical-point
-    cubic of QuadBez::nearest has a leading coefficient |p0 - 2 p1 + p2|^2 of rounding size and solve_cubic returns garbage
-    (finding C15-cubic-small-leading)"""
+    """root cause: a quadratic/cubic that is a degree-raised line up to rounding (collinear control polygon with evenly spaced control
+    points: Line -> to_cubic, controls at the thirds / the midpoint): the critical-point cubic of QuadBez::nearest has a leading
+    coefficient |p0 - 2 p1 + p2|^2 of rounding size (not exactly 0) and solve_cubic returns garbage (finding C15-cubic-small-leading).
+    Collinear control polygons with UNEVEN spacing (overshooting or doubling-back curves) are not in the class."""
     if verdict.startswith('CORR'):
         return False
-    return _collinear(case.meta['args'][0], case.meta['args'][1])
+    return _affinely_parametrised(case.meta['args'][0], case.meta['args'][1])
 
 
 KNOWN_CLASSES = {'nearest_straight': nearest_straight}
